@@ -11,7 +11,9 @@ use std::sync::Arc;
 use std::time::Duration;
 
 use crate::cancel::Cancel;
-use crate::coroutine_impl::{co_get_handle, run_coroutine, CoroutineImpl, EventSource};
+use crate::coroutine_impl::{
+    co_get_handle, current_cancel_data, is_coroutine, run_coroutine, CoroutineImpl, EventSource,
+};
 use crate::scheduler::get_scheduler;
 use crate::sync::atomic_dur::AtomicDuration;
 use crate::sync::AtomicOption;
@@ -192,8 +194,24 @@ impl Drop for DropGuard<'_> {
 impl Drop for Park {
     fn drop(&mut self) {
         // wait the kernel finish
-        while self.wait_kernel.load(Ordering::Acquire) {
-            yield_now();
+        // this must not be a cancellation point: a Cancel panic raised from a
+        // destructor would leak what the caller is about to return (e.g. the
+        // MutexGuard at the end of `Mutex::lock`, its lock would never be released)
+        if self.wait_kernel.load(Ordering::Acquire) {
+            let cancel = if is_coroutine() {
+                Some(current_cancel_data())
+            } else {
+                None
+            };
+            if let Some(c) = cancel {
+                c.disable_cancel();
+            }
+            while self.wait_kernel.load(Ordering::Acquire) {
+                yield_now();
+            }
+            if let Some(c) = cancel {
+                c.enable_cancel();
+            }
         }
 
         self.set_timeout_handle(None);
